@@ -287,6 +287,13 @@ func c16repairOne(t *testing.T, out *verifh.Out, rnd *rand.Rand, dir string) {
 		wd.AddFault("c1", "replica_status", 1, "err:1105")
 		fresh = "err"
 	}
+	// the topology as the daemon reads it: through the real fetch; in a sixth of the runs one record cannot be read — then
+	// nothing may be repaired on a partial picture (repairSlaveNode returns when the fetch fails)
+	topoReadFails := rnd.Intn(6) == 0
+	if topoReadFails {
+		wd.AddFault("dcs:cascade_nodes/"+[]string{"c1", "c2"}[rnd.Intn(2)], "get", 0, "err")
+	}
+	fetched, fetchErr := app.fetchCascadeNodeConfigurations()
 	cand := c16bsf(app, "c1", cs, "m", topo)
 	var candUUID string
 	if n := wd.Nodes[cand]; n != nil {
@@ -303,7 +310,9 @@ func c16repairOne(t *testing.T, out *verifh.Out, rnd *rand.Rand, dir string) {
 				}
 			}
 		}()
-		app.repairCascadeNode(app.cluster.Get("c1"), cs, "m", topo)
+		if fetchErr == nil { // as repairSlaveNode does
+			app.repairCascadeNode(app.cluster.Get("c1"), cs, "m", fetched)
+		}
 	}()
 	evs := wd.TakeLog()
 	acts := c16acts(evs, "c1")
@@ -318,5 +327,5 @@ func c16repairOne(t *testing.T, out *verifh.Out, rnd *rand.Rand, dir string) {
 	out.Line(map[string]any{"k": "c16repair", "host": "c1", "state": st, "cs": vCSList(cs), "topo": vTopoList(topo), "master": "m", "reasonable": 300,
 		"in": map[string]any{"stream_from": topo["c1"].StreamFrom, "timer_zero": timerZero, "stop_ok": stopOK, "fresh": freshVal,
 			"uuid_ok": uuidOK, "uuid": candUUID, "change_ok": changeOK},
-		"cand": cand, "acts": acts, "timer_zero_after": app.t.Get(StreamFromFailedAt, "c1").IsZero(), "panic": panicked})
+		"topo_read_fails": topoReadFails, "cand": cand, "acts": acts, "timer_zero_after": app.t.Get(StreamFromFailedAt, "c1").IsZero(), "panic": panicked})
 }
